@@ -1120,9 +1120,9 @@ def c09_l(ctx):
         dm = match_any(dep[0], ('_d <= max_depth', 'max_depth >= _d', '_d < max_depth + 1')) \
             if dep else None
         dname = dm['d'][1] if dm is not None and dm['d'][0] == 'name' else None
-        incs = [s for s in lo.body if isinstance(s, ast.AugAssign) and isinstance(s.op, ast.Add)
-                and isinstance(s.target, ast.Name) and s.target.id == dname and
-                exn.raw(s.value) == ('const', 1)]
+        from .base import increment_of
+        incs = [s for s in lo.body if increment_of(s, by=1) is not None and
+                increment_of(s, by=1)[0] == dname]
         ctx.check(len(incs) == 1, nuts, 'depth advances with every doubling', 'depth += 1',
                   'the tree depth is not advanced by one in every trip of the doubling loop',
                   fn=nuts, node=incs[0] if incs else lo)
